@@ -219,3 +219,74 @@ package corerad
 //@   opt cancelable [C10]
 //@   assigns everything
 //@   opt safety [C10]
+
+// ---------------------------------------------------------------------------
+// advertise.go: building and sending RAs (C01, C04, C07, C08)
+
+//@ macro advOK(a) = a.cctx != nil && a.cctx.state != nil && a.cctx.mm != nil && a.cctx.mm.AdvErrorsTotal != nil && a.cctx.mm.AdvRouterAdvertisementsTotal != nil && a.cctx.mm.AdvLastMulticastTime != nil && a.cctx.mm.AdvMessagesReceivedTotal != nil && a.cctx.mm.MessagesReceivedInvalidTotal != nil && a.cctx.mm.AdvRouterAdvertisementInconsistenciesTotal != nil
+
+//@ ghost var raLogged Int
+//@ ghost var sentUnicast Int
+//@ ghost var sentMulticast Int
+//@ ghost var txErrors Int
+//@ ghost var advReceived Int
+//@ ghost var inconsistencies Int
+
+//@ func (*Advertiser).buildRA
+//@   ghost local logged Int
+//@   requires P1: advOK(a) && ifiOK(ifi)
+//@   assigns new heap(ndp.RouterAdvertisement), new mem(ndp.Option), new heap(ndp.PrefixInformation), new heap(ndp.RouteInformation), new heap(ndp.RecursiveDNSServer), new heap(ndp.DNSSearchList), new heap(ndp.MTU), new heap(ndp.LinkLayerAddress), new mem(netip.Addr), new mem(netip.Prefix), new mem(system.IP), new mem(system.Route), new mem(config.Misconfiguration), ghost.clockRead, ghost.lastAddrs, ghost.lastRoutes, ghost.fwdVal, ghost.fwdName, ghost.fwdFresh
+//@   at call logf(la, lformat, largs): ghost.logged = ghost.logged + 1
+//@   loop 1 invariant B0 [C04]: 0 <= rangeindex + 1 && rangeindex + 1 <= len(ms) && ghost.logged == rangeindex + 1 && len(ms) <= 1 && (len(ms) == 1 ==> ms[0] == 1)
+//@   ensures E1 [C04,C01,C08]: result1 == nil ==> result0 != nil && raHeaderFrom(result0, ifi) && result0.RouterLifetime == ite(ghost.fwdVal, ifi.DefaultLifetime, 0) && optsSorted(result0.Options) && optsKnown(result0.Options) && fresh(result0)
+//@   ensures E2 [C04]: result1 == nil ==> ghost.fwdName == ifi.Name && ghost.logged == b2i(!ghost.fwdVal && ifi.DefaultLifetime > 0)
+//@   ensures E3 [C04]: result1 != nil ==> result0 == nil
+//@   opt safety [C04,C17]
+//@   opt frame [C04]
+
+//@ func (*Advertiser).send
+//@   requires P1: advOK(a) && ifiOK(cfg) && conn != nil
+//@   assigns new heap(ndp.RouterAdvertisement), new mem(ndp.Option), new heap(ndp.PrefixInformation), new heap(ndp.RouteInformation), new heap(ndp.RecursiveDNSServer), new heap(ndp.DNSSearchList), new heap(ndp.MTU), new heap(ndp.LinkLayerAddress), new mem(netip.Addr), new mem(netip.Prefix), new mem(system.IP), new mem(system.Route), new mem(config.Misconfiguration), ghost.clockRead, ghost.lastAddrs, ghost.lastRoutes, ghost.fwdVal, ghost.fwdName, ghost.fwdFresh, ghost.writes, ghost.lastWriteDst, ghost.lastWriteMsg
+//@   ensures S1 [C07]: cfg.UnicastOnly && addrIsMulticast(dst) ==> result == nil && ghost.writes == old(ghost.writes)
+//@   ensures S2 [C07,C08]: ghost.writes <= old(ghost.writes) + 1 && (ghost.writes == old(ghost.writes) + 1 ==> ghost.lastWriteDst == dst && isType(ghost.lastWriteMsg, "*ndp.RouterAdvertisement") && raHeaderFrom(as(ghost.lastWriteMsg, "*ndp.RouterAdvertisement"), cfg) && as(ghost.lastWriteMsg, "*ndp.RouterAdvertisement").RouterLifetime == ite(ghost.fwdVal, cfg.DefaultLifetime, 0))
+//@   ensures S3 [C07]: result == nil && !(cfg.UnicastOnly && addrIsMulticast(dst)) ==> ghost.writes == old(ghost.writes) + 1
+//@   opt safety [C07,C17]
+//@   opt frame [C07]
+
+//@ funcfield corerad.Metrics.AdvErrorsTotal(v, labels)
+//@   assigns ghost.txErrors
+//@   ensures M1: ghost.txErrors == old(ghost.txErrors) + 1
+//@ funcfield corerad.Metrics.AdvLastMulticastTime(v, labels)
+//@ funcfield corerad.Metrics.AdvRouterAdvertisementsTotal(v, labels)
+//@   assigns ghost.sentUnicast, ghost.sentMulticast
+//@   ensures M1: len(labels) == 2 ==> ghost.sentUnicast == old(ghost.sentUnicast) + b2i(labels[1] == "unicast") && ghost.sentMulticast == old(ghost.sentMulticast) + b2i(labels[1] == "multicast")
+//@ funcfield corerad.Metrics.AdvMessagesReceivedTotal(v, labels)
+//@   assigns ghost.advReceived
+//@   ensures M1: ghost.advReceived == old(ghost.advReceived) + 1
+//@ funcfield corerad.Metrics.AdvRouterAdvertisementInconsistenciesTotal(v, labels)
+//@   assigns ghost.inconsistencies
+//@   ensures M1: ghost.inconsistencies == old(ghost.inconsistencies) + 1
+
+//@ func (*Advertiser).sendWorker
+//@   requires P1: advOK(a) && ifiOK(a.cfg) && conn != nil
+//@   assigns new heap(ndp.RouterAdvertisement), new mem(ndp.Option), new heap(ndp.PrefixInformation), new heap(ndp.RouteInformation), new heap(ndp.RecursiveDNSServer), new heap(ndp.DNSSearchList), new heap(ndp.MTU), new heap(ndp.LinkLayerAddress), new mem(netip.Addr), new mem(netip.Prefix), new mem(system.IP), new mem(system.Route), new mem(config.Misconfiguration), ghost.clockRead, ghost.lastAddrs, ghost.lastRoutes, ghost.fwdVal, ghost.fwdName, ghost.fwdFresh, ghost.writes, ghost.lastWriteDst, ghost.lastWriteMsg, ghost.txErrors, ghost.sentUnicast, ghost.sentMulticast, ghost.now
+//@   ensures W1 [C07]: result != nil ==> ghost.txErrors == old(ghost.txErrors) + 1 && ghost.sentUnicast == old(ghost.sentUnicast) && ghost.sentMulticast == old(ghost.sentMulticast)
+//@   ensures W2 [C07]: result == nil ==> ghost.txErrors == old(ghost.txErrors) && ghost.sentUnicast == old(ghost.sentUnicast) + b2i(!addrIsMulticast(ip)) && ghost.sentMulticast == old(ghost.sentMulticast) + b2i(addrIsMulticast(ip))
+//@   ensures W3 [C07]: ghost.writes <= old(ghost.writes) + 1 && (ghost.writes == old(ghost.writes) + 1 ==> ghost.lastWriteDst == ip)
+//@   ensures W4 [C07]: a.cfg.UnicastOnly && addrIsMulticast(ip) ==> ghost.writes == old(ghost.writes)
+//@   opt safety [C07,C17]
+//@   opt frame [C07]
+
+//@ funcfield corerad.Advertiser.terminate() (r)
+
+//@ func (*Advertiser).shutdown
+//@   ghost local term Bool
+//@   requires P1: advOK(a) && ifiOK(a.cfg) && conn != nil && a.terminate != nil
+//@   assigns new heap(ndp.RouterAdvertisement), new mem(ndp.Option), new heap(ndp.PrefixInformation), new heap(ndp.RouteInformation), new heap(ndp.RecursiveDNSServer), new heap(ndp.DNSSearchList), new heap(ndp.MTU), new heap(ndp.LinkLayerAddress), new mem(netip.Addr), new mem(netip.Prefix), new mem(system.IP), new mem(system.Route), new mem(config.Misconfiguration), ghost.clockRead, ghost.lastAddrs, ghost.lastRoutes, ghost.fwdVal, ghost.fwdName, ghost.fwdFresh, ghost.writes, ghost.lastWriteDst, ghost.lastWriteMsg
+//@   at call terminate() (tr): ghost.term = tr
+//@   ensures T1 [C08]: !ghost.term ==> ghost.writes == old(ghost.writes)
+//@   ensures T2 [C08]: ghost.writes <= old(ghost.writes) + 1
+//@   ensures T3 [C08]: ghost.writes == old(ghost.writes) + 1 ==> ghost.term && ghost.lastWriteDst == allNodesAddr && isType(ghost.lastWriteMsg, "*ndp.RouterAdvertisement") && as(ghost.lastWriteMsg, "*ndp.RouterAdvertisement").RouterLifetime == 0 && raHeaderFrom(as(ghost.lastWriteMsg, "*ndp.RouterAdvertisement"), a.cfg)
+//@   ensures T4 [C08]: star(a) == old(star(a))
+//@   opt safety [C08,C17]
+//@   opt frame [C08]
